@@ -380,39 +380,108 @@ def install_string_hooks(it):
             return Unknown('re.sub')
         return rx.compiled().sub(repl, subj)
     it.intrinsics['rx.sub'] = rx_sub
-    it.intrinsics['re.sub'] = lambda interp, args, kwargs: (
-        Unknown('re.sub') if any(is_abstract(a) for a in args) or not isinstance(args[0], str)
-        else re.sub(*args, **kwargs)) if not isinstance(args[2] if len(args) > 2 else None, Taint) else \
-        args[2].clone(imprecise=True, label=args[2].label + ':re.sub')
+    def re_sub(interp, args, kwargs):
+        pattern, repl, subj = (list(args) + [None, None, None])[:3]
+        if isinstance(subj, Taint):
+            return subj.clone(imprecise=True, label=subj.label + ':re.sub')
+        if isinstance(subj, (Skel, Markup)):
+            return Unknown('re.sub(markup)')
+        if not (isinstance(pattern, str) and isinstance(repl, str) and isinstance(subj, str)):
+            return Unknown('re.sub')
+        return re.sub(pattern, repl, subj, **{k: v for k, v in kwargs.items() if not is_abstract(v)})
+    it.intrinsics['re.sub'] = re_sub
 
 
 # ---- abstract tokens ----------------------------------------------------------
 
 class RenderChildren(AbstractValue):
-    """children of a container token as seen by a render method."""
+    """children of a container token as seen by a render method: an unknown number (possibly zero)
+    of rendered-by-induction children. Emptiness is one consistent condition per container."""
 
     def __init__(self, kind, owner):
         self.kind = kind
         self.owner = owner
         self._child = ChildTokVal(kind)
-        self.prov = ('renderchildren', kind)
+        self._last = ChildTokVal(kind)
+        self.prov = ('renderchildren', kind, id(self))
+
+    def empty(self, interp):
+        return interp.oracle.decide(('cond', ('empty', id(self))), 'children-empty')
 
     def abs_iter(self, interp):
-        yield self._child
+        if not self.empty(interp):
+            yield self._child
 
     def abs_len(self, interp):
-        return AbsInt(('len', 'children', id(self)))
+        return LenOf(self)
 
     def abs_getitem(self, interp, idx):
         if isinstance(idx, slice):
-            return self
+            return RenderChildrenSlice(self, idx)
+        if self.empty(interp):
+            raise Raised(ExcVal('IndexError', ('index into a container token without children',)))
+        if isinstance(idx, int) and idx < 0:
+            if interp.oracle.decide(('cond', ('single', id(self))), 'children-single'):
+                return self._child
+            return self._last
         return self._child
 
     def abs_truth(self, interp):
-        return interp.oracle.decide(('cond', ('nonempty', id(self))), 'nonempty-children')
+        return not self.empty(interp)
 
     def abs_is(self, interp, other):
         return False if other is None else self is other
+
+
+class RenderChildrenSlice(AbstractValue):
+    def __init__(self, base, sl):
+        self.base = base
+        self.sl = sl
+        self._child = ChildTokVal(base.kind)
+        self.prov = ('renderchildren-slice', id(base))
+
+    def abs_iter(self, interp):
+        if self.base.empty(interp):
+            return
+        if self.sl.start in (None, 0) or not interp.oracle.decide(('cond', ('single', id(self.base))), 'children-single'):
+            yield self._child
+
+    def abs_len(self, interp):
+        return AbsInt(('len', 'slice', id(self)))
+
+    def abs_truth(self, interp):
+        return interp.oracle.decide(('cond', ('nonempty-slice', id(self))), 'slice-nonempty')
+
+
+class LenOf(AbstractValue):
+    """len(children): compared with 0/1 consistently with the emptiness condition."""
+
+    def __init__(self, ch):
+        self.ch = ch
+        self.prov = ('len', id(ch))
+
+    def abs_compare(self, interp, op, other, reflected):
+        if isinstance(other, int) and not isinstance(other, bool):
+            e = self.ch.empty(interp)
+            n_is0 = e
+            if other == 0:
+                return {ast.Eq: n_is0, ast.NotEq: not n_is0, ast.Gt: not n_is0, ast.LtE: n_is0, ast.GtE: True, ast.Lt: False}[op]
+            if e:
+                from .interp import _CMPOPS
+                return _CMPOPS[op](0, other)
+            single = interp.oracle.decide(('cond', ('single', id(self.ch))), 'children-single')
+            if other == 1:
+                return {ast.Eq: single, ast.NotEq: not single, ast.Gt: not single, ast.LtE: single, ast.GtE: True, ast.Lt: False}[op]
+            if single:
+                from .interp import _CMPOPS
+                return _CMPOPS[op](1, other)
+        return Cond(('lencmp', op.__name__, id(self.ch), _freeze(other)))
+
+    def abs_truth(self, interp):
+        return not self.ch.empty(interp)
+
+    def abs_binop(self, interp, op, other, reflected):
+        return AbsInt(('len-op', id(self.ch)))
 
 
 class ChildTokVal(AbstractValue):
